@@ -96,6 +96,13 @@ CLAIMED["C11"] = ("DESIGN.md §4 C11",
     "with the same payload, Close -> Close + ConnectionClosed, Pong -> nothing; control frames are not collected, fragments are concatenated in order, text/binary comes from the "
     "first fragment; closed is set on ConnectionClosed and Drop sends a Close unless closed; the two receive variants agree; the non-blocking header read uses its count.")
 
+CLAIMED["C12"] = ("DESIGN.md §4 C12",
+    "R-MUSTPASS over the MIR CFG of AsyncWebsocketApp::run (message / disconnect / connect dispatch, removal before re-poll, insert of accepted streams, shutdown poll), R-FLOW (closure captures, unicast key, broadcast receiver and data), who-may-dispatch (single pool queue)",
+    "Decides on all paths of run(): a received message reaches exactly one dispatch capturing that message and the polled address (or no handler is set); every receive error, "
+    "heartbeat timeout and disconnect dispatch passes streams.remove(addr) before that stream can be polled again; every accepted stream is inserted under its own address "
+    "with at most one connect dispatch; messages are polled only from entries of streams; unicast uses the addressee's key, broadcast iterates all streams with the serialised "
+    "frame; the shutdown receiver is polled every outer iteration, its Ok edge leaves the loop through thread_pool.stop(). Cross-thread execution order is not decided.")
+
 NOT_YET = {}
 
 NOT_APPLICABLE = {
